@@ -836,6 +836,9 @@ class TrueTypeFont:
                         fp.seek(pos + 2 * seg + idr)
                         for c in range(sc, ec + 1):
                             b = cast(Tuple[int], struct.unpack(">H", fp.read(2)))[0]
+                            if b == 0:
+                                # missing glyph: idDelta is not added to it
+                                continue
                             char2gid[c] = (b + idd) & 0xFFFF
                     else:
                         for c in range(sc, ec + 1):
